@@ -439,8 +439,9 @@ class ExtraCoords(ExtraCoordsABC):
         """
 
         if self._wcs:
-            if isinstance(self._wcs, SlicedLowLevelWCS):
-                return self._wcs.dropped_world_dimensions
+            low_level_wcs = getattr(self._wcs, "low_level_wcs", self._wcs)
+            if isinstance(low_level_wcs, SlicedLowLevelWCS):
+                return low_level_wcs.dropped_world_dimensions
 
         if self._lookup_tables or self._dropped_tables:
             mtc = MultipleTableCoordinate(*[lt[1] for lt in self._lookup_tables])
